@@ -906,11 +906,26 @@ Inductive tatom :=
 | TRun (g : raw -> raw)                 (* run PROGRAM (no -stdin): transformed_by_program *)
 | TReplace (sub : text -> text).        (* replace REGEX REPLACEMENT: _ReplaceStringTransformer (no line selector) *)
 
+(** Chains nested in chains - ( ( T1 | identity ) | T2 ), the transformation of a program symbol followed by the
+    transformation given where it is referenced, the transformation of the program of [run] - : a tree of
+    SequenceStringTransformer objects. *)
+Inductive tchain :=
+| CAtom (a : tatom)
+| CSeq (l : list tchain).
+
 Inductive trans :=
 | TAtom (a : tatom)
-| TSeq (l : list tatom).                (* T1 | T2 | ... : SequenceStringTransformer *)
+| TSeq (l : list tatom)                 (* T1 | T2 | ... : SequenceStringTransformer *)
+| TChain (c : tchain).
 
 Definition is_identity_atom (a : tatom) : bool := match a with TId => true | _ => false end.
+
+(** SequenceStringTransformer.is_identity_transformer: there is no operand that is not the identity *)
+Fixpoint chain_is_identity (c : tchain) : bool :=
+  match c with
+  | CAtom a => is_identity_atom a
+  | CSeq l => forallb chain_is_identity l
+  end.
 
 Definition transform_atom (a : tatom) (x : src) : src :=
   match a with
@@ -921,11 +936,26 @@ Definition transform_atom (a : tatom) (x : src) : src :=
   | TReplace sub => SLines (lf_replace sub) false None false x
   end.
 
-(** SequenceStringTransformer.transform: identity operands are dropped at construction. *)
+(** SequenceStringTransformer.transform: the operands that are not the identity transformer, in order
+    (the others are dropped at construction). *)
+Fixpoint chain_transform (c : tchain) (x : src) : src :=
+  match c with
+  | CAtom a => transform_atom a x
+  | CSeq l => fold_left (fun m c' => if chain_is_identity c' then m else chain_transform c' m) l x
+  end.
+
+(** the atoms a chain really applies, in order *)
+Fixpoint chain_atoms (c : tchain) : list tatom :=
+  match c with
+  | CAtom a => [a]
+  | CSeq l => flat_map (fun c' => if chain_is_identity c' then [] else chain_atoms c') l
+  end.
+
 Definition transform (t : trans) (x : src) : src :=
   match t with
   | TAtom a => transform_atom a x
   | TSeq l => fold_left (fun m a => transform_atom a m) (filter (fun a => negb (is_identity_atom a)) l) x
+  | TChain c => chain_transform c x
   end.
 
 (** A string source expression as the parser builds it: SOURCE [-transformed-by T]. *)
@@ -956,6 +986,7 @@ Definition layers (t : trans) : nat :=
   match t with
   | TAtom _ => 1%nat
   | TSeq l => length (filter (fun a => negb (is_identity_atom a)) l)
+  | TChain c => length (chain_atoms c)
   end.
 
 Fixpoint unwrap (n : nat) (x : src) : src :=
